@@ -403,3 +403,86 @@ C04_UDP = {
                                  (b"\xff\xff\xff\xff\x55\xff\xff\xff\xff", [{"counterstrike.query": "a2s_player"}]),
                                  (b"\xff\xff\xff\xff\x56\xff\xff\xff\xff", [{"counterstrike.query": "a2s_rules"}])], "keys": ["counterstrike.query"]},
 }
+
+
+# ---------------------------------------------------------------- grammars for the life-cycle explorations (C01, C09)
+# per service: canonical dialogue (list of byte strings, in order) and up to 6 further tokens
+
+def adb_pkt(cmd, a0, a1, data):
+    crc = sum(data) & 0xffffffff
+    magic = bytes(b ^ 0xff for b in cmd)
+    return cmd + struct.pack("<IIII", a0, a1, len(data), crc) + magic + data
+
+
+def vnc_setpixfmt(bpp, depth, be, tc):
+    return b"\x00\x00\x00\x00" + bytes([bpp, depth, be, tc]) + struct.pack(">HHH", 31, 31, 31) + bytes([10, 5, 0]) + b"\x00\x00\x00"
+
+
+def vnc_update(inc, w=32, h=24):
+    return b"\x03" + bytes([inc]) + struct.pack(">HHHH", 0, 0, w, h)
+
+
+def vnc_encodings(n):
+    return b"\x02\x00" + struct.pack(">H", n) + b"".join(struct.pack(">i", i) for i in range(min(n, 8)))
+
+
+_tls_hello = bytes.fromhex("16030100520100004e0303" + "11" * 32 + "00" + "0004c02b002f" + "0100" + "0021" +
+                           "0000000e000c0000096c6f63616c686f7374" + "000a00040002001d" + "000b00020100" + "00170000")
+
+GRAMMAR = {
+    "ftp": {"canon": [b"USER anonymous\r\n", b"PASS anonymous\r\n", b"PWD\r\n", b"CWD /\r\n", b"PASV\r\n", b"LIST\r\n"],
+            "tokens": [b"CDUP\r\n", b"EPSV\r\n", b"PORT 10,1,2,3,4,5\r\n", b"PORT 1,2\r\n", b"FEAT\r\n", b"MKD x\r\nRNFR x\r\nRNTO y\r\nRMD y\r\n"]},
+    "smtp": {"canon": [b"EHLO a.example\r\n", b"MAIL FROM:<a@b>\r\n", b"RCPT TO:<c@d>\r\n", b"DATA\r\n", b"Subject: x\r\n\r\nbody\r\n.\r\n", b"QUIT\r\n"],
+             "tokens": [b"BDAT 5 LAST\r\nhello", b"BDAT x\r\n", b"BDAT\r\n", b"STARTTLS\r\n", b"RSET\r\n", b"HELP\r\n"]},
+    "telnet": {"canon": [b"root\r\n", b"toor\r\n", b"uname -a\r\n", b"exit\r\n"],
+               "tokens": [b"\xff\xfb\x01\xff\xfd\x03", b"\x1b[A\x1b[B", b"\x7f\x7f\x08", b"a" * 300 + b"\r\n", b"\x03\x04", b"\t\t"]},
+    "redis": {"canon": [redis_cmd("INFO").encode(), redis_cmd("INFO", "server").encode(), redis_cmd("GET", "k").encode()],
+              "tokens": [b"*0\r\n", b"*1\r\n:5\r\n", b"*2\r\n$4\r\nINFO\r\n*1\r\n$1\r\nx\r\n", b"*99999999\r\n", b"$5\r\nhello\r\n", b"+OK\r\n"]},
+    "memcached": {"canon": [b"stats\r\n", b"set k 0 0 3\r\nabc\r\n", b"get k\r\n"],
+                  "tokens": [b"set k 0 0 -5\r\n", b"set k 0 0 99999\r\nab", b"set k\r\n", b"\r\n", b"cas a b c d e\r\n", b"flush_all\r\n"]},
+    "http": {"canon": [http_req("GET", "/"), http_post("/x", b"a=1") + b"a=1", http_req("HEAD", "/")],
+             "tokens": [b"GET / HTTP/9.9\r\n\r\n", b"POST / HTTP/1.1\r\nContent-Length: 99999\r\n\r\nab", b"GET  HTTP/1.1\r\n\r\n",
+                        b"POST / HTTP/1.1\r\nTransfer-Encoding: chunked\r\n\r\n5\r\nhello\r\n0\r\n\r\n", b"OPTIONS * HTTP/1.1\r\nHost: a\r\n\r\n", b"\r\n\r\n"]},
+    "ldap": {"canon": [ldap_bind(1, "root", "root"), ldap_search(2, "dc=x", "uid", "a"), ldap_add(3, "cn=a"), ldap_unbind(4)],
+             "tokens": [ldap_search(5, "", "objectClass", "*"), tlv(0x30, ber_int(6)), tlv(0x30, ber_int(7) + tlv(0x60, b"")),
+                        tlv(0x30, ber_int(8) + tlv(0x77, tlv(0x80, b"1.3.6.1.4.1.1466.20037"))), b"\x30\x84\x7f\xff\xff\xff", ldap_moddn(9, "cn=a")]},
+    "elasticsearch": {"canon": [http_post("/_search", _es) + _es], "tokens": [http_req("GET", "/"), http_req("GET", "/_cat/indices"), http_req("DELETE", "/x")]},
+    "docker": {"canon": [http_req("GET", "/version"), http_post("/containers/create", _es) + _es], "tokens": [http_req("GET", "/containers/json"), http_req("GET", "/_ping"), http_req("GET", "/images/json")]},
+    "eos": {"canon": [http_post("/v1/chain/get_info", _eos) + _eos], "tokens": [http_post("/v1/chain/get_block", b"{") + b"{", http_req("GET", "/v1/chain/get_info")]},
+    "ethereum": {"canon": [http_post("/", _eth) + _eth], "tokens": [http_post("/", b"[]") + b"[]", http_post("/", b"{\"method\":5}") + b"{\"method\":5}", http_post("/", b"null") + b"null"]},
+    "cwmp": {"canon": [http_post("/", _cwmp, "text/xml") + _cwmp], "tokens": [http_post("/", b"<a>", "text/xml") + b"<a>", http_req("GET", "/")]},
+    "ipp": {"canon": [http_post("/printers/x", ipp_request(0x000b, 1), "application/ipp") + ipp_request(0x000b, 1)],
+            "tokens": [http_post("/p", ipp_request(0x0002, 2, user="u", jobname="j", doc=b"DOC"), "application/ipp") + ipp_request(0x0002, 2, user="u", jobname="j", doc=b"DOC"),
+                       http_post("/p", ipp_request(0x000b, 3)[:-1], "application/ipp") + ipp_request(0x000b, 3)[:-1],      # no end-of-attributes tag
+                       http_post("/p", b"\x01\x01\x00\x0b\x00\x00\x00\x01\x01\x22\x00\x01a\x00\x02\x01", "application/ipp") + b"\x01\x01\x00\x0b\x00\x00\x00\x01\x01\x22\x00\x01a\x00\x02\x01",
+                       http_post("/p", b"\x01\x01", "application/ipp") + b"\x01\x01", http_req("GET", "/p")]},
+    "adb": {"canon": [adb_pkt(b"CNXN", 0x01000000, 4096, b"host::\x00"), adb_pkt(b"OPEN", 1, 0, b"shell:\x00"), adb_pkt(b"WRTE", 1, 9, b"id\r"), adb_pkt(b"CLSE", 1, 9, b"")],
+            "tokens": [b"CNX", b"OPEN", adb_pkt(b"WRTE", 1, 9, b"x"), adb_pkt(b"OKAY", 1, 9, b""), adb_pkt(b"ZZZZ", 0, 0, b""), b"CNXN" + b"\x00" * 10]},
+    "echo": {"canon": [b"hello\n", b"world\n"], "tokens": [b"\x00" * 100, b"x" * 5000]},
+    "https": {"canon": [_tls_hello], "tokens": [b"\x16\x03\x01\x00\x02\x01\x00", b"\x16\x03\x01\xff\xff", b"\x15\x03\x01\x00\x02\x02\x28", _tls_hello[:40], b"\x80\x2e\x01\x00\x02"]},
+    "ssh-simulator": {"canon": [b"SSH-2.0-verif\r\n"], "tokens": [b"SSH-1.5-x\r\n", b"\x00\x00\x00\x0c\x0a\x14" + b"\x00" * 10, b"SSH-2.0-" + b"a" * 300 + b"\r\n", b"\x00\x00\xff\xff"]},
+    "ssh-auth": {"canon": [b"SSH-2.0-verif\r\n"], "tokens": [b"SSH-1.5-x\r\n", b"\x00\x00\x00\x0c\x0a\x14" + b"\x00" * 10, b"\x00\x00\xff\xff"]},
+    "vnc": {"canon": [b"RFB 003.008\n", b"\x01", b"\x01", vnc_setpixfmt(16, 16, 0, 1), vnc_encodings(2), vnc_update(0)],
+            "tokens": [vnc_setpixfmt(32, 24, 0, 0) + vnc_update(0), vnc_setpixfmt(24, 24, 0, 1) + vnc_update(0), vnc_update(1), b"\x04\x01\x00\x00\x00\x00\x00\x41",
+                       b"\x05\x01\x00\x10\x00\x10", vnc_encodings(65535)]},
+    # datagram services
+    "dns": {"udp": True, "canon": [dns_query(1, "a.example")], "tokens": [dns_query(2, "b.example")[:12], b"\x00" * 5, dns_query(3, "x" * 60 + ".example")]},
+    "ntp": {"udp": True, "canon": [b"\x1b" + b"\x00" * 47], "tokens": [b"\x17\x00\x03\x2a" + b"\x00" * 4, b"\x00"]},
+    "tftp": {"udp": True, "canon": [tftp_rrq("a"), tftp_wrq("b"), tftp_data(1, b"x" * 512), tftp_data(2, b"y")], "tokens": [b"\x00\x01a", b"\x00\x03\x00", b"\x00"]},
+    "snmp": {"udp": True, "canon": [C04_UDP["snmp"]["dgrams"][0][0]], "tokens": [b"\x30\x02\x02", b"\x30", b"\x30\x82\xff\xff\x02\x01\x00"]},
+    "counterstrike": {"udp": True, "canon": [b"\xff\xff\xff\xffTSource Engine Query\x00"], "tokens": [b"\xff\xff\xff\xff", b"\xff", b"\xff\xff\xff\xfeT"]},
+    "memcached-udp": {"udp": True, "svc": "memcached", "canon": [b"\x00\x01\x00\x00\x00\x01\x00\x00stats\r\n"], "tokens": [b"\x00\x01", b"\x00\x01\x00\x00\x00\x01\x00\x00set k 0 0 5\r\nab"]},
+    "echo-udp": {"udp": True, "svc": "echo", "canon": [b"ping"], "tokens": [b"", b"x" * 1400]},
+}
+
+RAW = {1: b"\x00" * 64, 2: bytes(range(128, 256)), 3: b"\r\n", 4: b"A" * 4096, 5: b"\xff\xff\xff\xff\x7f\xff\xff\xff" * 4}
+
+ALL_SERVICES = ["adb", "counterstrike", "cwmp", "dns", "docker", "echo", "elasticsearch", "eos", "ethereum", "ftp", "http", "https",
+                "ipp", "ldap", "memcached", "ntp", "redis", "smtp", "snmp", "ssh-auth", "ssh-simulator", "telnet", "tftp", "vnc"]
+
+
+def cfg_life():
+    """all 24 director-less services; echo and memcached also over udp"""
+    toml = cfg_all(ALL_SERVICES)
+    toml += '[[port]]\nport="udp/7"\nservices=["echo"]\n'
+    return toml
